@@ -113,6 +113,8 @@ def parseOp : List String → Option Op
   | ["offsets"] => some .getOffsets
   | ["metrics", vb] => do some (.metrics (← vb.toNat?))
   | ["scrape"] => some .scrape
+  | ["rebalance", lo, hi] => do some (.rebalance (← lo.toNat?) (← hi.toNat?))
+  | ["reopen", vb] => do some (.reopen (← vb.toNat?))
   | _ => none
 
 /-- one session line; `none` = not a session command -/
